@@ -141,18 +141,53 @@ func c15Singletons(p *Prog, r *Report) {
 			r.Undecided("C15.a", w.ctor, "", "constructor not found")
 			continue
 		}
-		initRoots := accessorCallsIn(p, ctor, ctor.Decl.Body, false)
+		// accessors the constructor forces: in its own body and in the helpers (stages) it calls synchronously
+		initRoots := map[string]bool{}
+		var force func(fi *FuncInfo, depth int, open map[string]bool)
+		force = func(fi *FuncInfo, depth int, open map[string]bool) {
+			for k := range accessorCallsIn(p, fi, fi.Decl.Body, false) {
+				initRoots[k] = true
+			}
+			if depth == 0 {
+				return
+			}
+			walkNoLit(fi.Decl.Body, func(x ast.Node) bool {
+				if _, isGo := x.(*ast.GoStmt); isGo {
+					return false
+				}
+				if c, ok := x.(*ast.CallExpr); ok {
+					if callee := p.staticCallee(fi.Pkg, c); callee != nil && callee.Pkg == fi.Pkg && !open[callee.Key] {
+						open[callee.Key] = true
+						force(callee, depth-1, open)
+					}
+				}
+				return true
+			})
+		}
+		force(ctor, 3, map[string]bool{ctor.Key: true})
 		finit := accClosure(acc, initRoots)
 		useRoots := map[string]bool{}
 		// callbacks registered by the constructor run later, concurrently with API calls
-		ast.Inspect(ctor.Decl.Body, func(x ast.Node) bool {
-			if lit, ok := x.(*ast.FuncLit); ok {
-				for k := range accessorCallsIn(p, ctor, lit.Body, true) {
-					useRoots[k] = true
+		var ctorBodies []*FuncInfo
+		ctorBodies = append(ctorBodies, ctor)
+		walkNoLit(ctor.Decl.Body, func(x ast.Node) bool {
+			if c, ok := x.(*ast.CallExpr); ok {
+				if callee := p.staticCallee(ctor.Pkg, c); callee != nil && callee.Pkg == ctor.Pkg {
+					ctorBodies = append(ctorBodies, callee)
 				}
 			}
 			return true
 		})
+		for _, cb := range ctorBodies {
+			ast.Inspect(cb.Decl.Body, func(x ast.Node) bool {
+				if lit, ok := x.(*ast.FuncLit); ok {
+					for k := range accessorCallsIn(p, cb, lit.Body, true) {
+						useRoots[k] = true
+					}
+				}
+				return true
+			})
+		}
 		cg := p.CallGraph()
 		reach := cg.Reachable(w.entries, func(k string) bool { return strings.HasPrefix(k, "(*"+pkgDI+".Container).") })
 		for k := range reach {
